@@ -109,6 +109,7 @@ package consensus
 //@   ensures @era types.b256(result) == (cheight(s) < s.Network.HardforkV2.FinalCutHeight ? types.b256(s.ChildTarget) : (W256 - 1) / wval(s.Difficulty))
 
 //@ func ValidateHeader
+//@   abstract
 //@   pure
 //@   prop C09
 //@   prop C13 C08
@@ -329,11 +330,17 @@ package consensus
 //@   ensures @found-id result1 ==> result0.ID == id
 //@   ensures @bounded result1 && sfBounded(*ms, ts) ==> result0.SiafundOutput.Value <= 10000
 
+// fcsWF: every v1 contract the lookup can return (recorded in the MidState, or supplied in the
+// supplement) has output sums that fit in 128 bits.
+//@ spec fcsWFms(ms MidState) bool = forall j in 0..len(ms.fces) :: v1fcSumsOK(ms.fces[j].FileContractElement.FileContract) && (ms.fces[j].Revision != nil ==> v1fcSumsOK(deref(ms.fces[j].Revision)))
+//@ spec fcsWFts(ts V1TransactionSupplement) bool = (forall j in 0..len(ts.RevisedFileContracts) :: v1fcSumsOK(ts.RevisedFileContracts[j].FileContract)) && (forall j in 0..len(ts.StorageProofs) :: v1fcSumsOK(ts.StorageProofs[j].FileContract.FileContract))
 //@ func (*MidState).fileContractElement
 //@   prop C10 C02 C07 C08
 //@   abstract
+//@   split-returns
 //@   requires msWF(*ms)
 //@   ensures @found-id result1 ==> result0.ID == id
+//@   ensures @well-formed result1 && fcsWFms(*ms) && fcsWFts(ts) ==> v1fcSumsOK(result0.FileContract)
 
 //@ func (*MidState).storageProofWindowID
 //@   prop C10 C08
@@ -714,6 +721,7 @@ package consensus
 //@   ensures @schedule types.u128(result) == ((types.u128(s.Network.InitialCoinbase) < sub || types.u128(s.Network.InitialCoinbase) - sub < types.u128(s.Network.MinimumCoinbase)) ? types.u128(s.Network.MinimumCoinbase) : types.u128(s.Network.InitialCoinbase) - sub)
 
 //@ func validateMinerPayouts
+//@   abstract
 //@   pure
 //@   prop C09
 //@   prop C01 C10
@@ -894,7 +902,81 @@ package consensus
 //@ func (State).MaxBlockWeight
 //@   abstract
 
+// ------------------------------------------------------------ validation.go: block level
+// msEnv: what the transaction entry points assume of the evolving MidState.  NewMidState
+// establishes it (proved); that ApplyTransaction / ApplyV2Transaction preserve it is ASSUMED
+// (their bodies are not under contract): the value bounds are the global supply bound, which is
+// a whole-history invariant.
+//@ spec msEnv(ms MidState) bool = msWF(ms) && (forall j in 0..len(ms.sces) :: types.u128(ms.sces[j].SiacoinElement.SiacoinOutput.Value) < EB) && (forall j in 0..len(ms.sfes) :: ms.sfes[j].SiafundElement.SiafundOutput.Value <= 10000) && fcsWFms(ms) && (forall id types.ElementID :: has(ms.elements, id) ==> ms.elements[id] < len(ms.v2fces)) && (forall j in 0..len(ms.v2fces) :: ms.v2fces[j].Revision != nil ==> types.u128(deref(ms.v2fces[j].Revision).RenterOutput.Value) + types.u128(deref(ms.v2fces[j].Revision).HostOutput.Value) < EB)
+//@ spec tsEnv(ts V1TransactionSupplement) bool = (forall j in 0..len(ts.SiacoinInputs) :: types.u128(ts.SiacoinInputs[j].SiacoinOutput.Value) < EB) && (forall j in 0..len(ts.SiafundInputs) :: ts.SiafundInputs[j].SiafundOutput.Value <= 10000) && fcsWFts(ts)
+
+//@ func (*MidState).ApplyTransaction
+//@   trusted
+//@   requires @validated ValidateTransaction(ms, txn, ts) == nil
+//@   modifies ms
+//@   ensures @assumed-env msEnv(*ms) && ms.base == old(ms.base)
+//@ func (*MidState).ApplyV2Transaction
+//@   trusted
+//@   requires @validated ValidateV2Transaction(ms, txn) == nil
+//@   modifies ms
+//@   ensures @assumed-env msEnv(*ms) && ms.base == old(ms.base)
+
+// suppMembers: every parent element a v1 transaction's supplement carries is a live member of
+// the accumulator (C04: v1 parents supplied in the block supplement).
+//@ spec suppMembers(s State, ts V1TransactionSupplement) bool = (forall j in 0..len(ts.SiacoinInputs) :: s.Elements.containsUnspentSiacoinElement(ts.SiacoinInputs[j].Share())) && (forall j in 0..len(ts.SiafundInputs) :: s.Elements.containsUnspentSiafundElement(ts.SiafundInputs[j].Share())) && (forall j in 0..len(ts.RevisedFileContracts) :: s.Elements.containsUnresolvedFileContractElement(ts.RevisedFileContracts[j].Share())) && (forall j in 0..len(ts.StorageProofs) :: s.Elements.containsUnresolvedFileContractElement(ts.StorageProofs[j].FileContract.Share()))
+//@ func validateSupplement
+//@   prop C10 C04
+//@   abstract
+//@   requires s.Network != nil
+//@   ensures @same-length result == nil ==> len(bs.Transactions) == len(b.Transactions)
+//@   ensures @empty-after-v2 result == nil && cheight(s) >= s.Network.HardforkV2.RequireHeight ==> len(bs.Transactions) == 0 && len(bs.ExpiringFileContracts) == 0
+//@   ghost t int
+//@   ghost k int
+//@   invariant loop#1 @members-done 0 <= t && t < $n ==> suppMembers(s, bs.Transactions[t])
+//@   invariant loop#2 @c 0 <= t && t < $n1 ==> suppMembers(s, bs.Transactions[t])
+//@   invariant loop#2 @sc forall j in 0..$n :: s.Elements.containsUnspentSiacoinElement(txn.SiacoinInputs[j].Share())
+//@   invariant loop#3 @c 0 <= t && t < $n1 ==> suppMembers(s, bs.Transactions[t])
+//@   invariant loop#3 @sc forall j in 0..len(txn.SiacoinInputs) :: s.Elements.containsUnspentSiacoinElement(txn.SiacoinInputs[j].Share())
+//@   invariant loop#3 @sf forall j in 0..$n :: s.Elements.containsUnspentSiafundElement(txn.SiafundInputs[j].Share())
+//@   invariant loop#4 @c 0 <= t && t < $n1 ==> suppMembers(s, bs.Transactions[t])
+//@   invariant loop#4 @sc forall j in 0..len(txn.SiacoinInputs) :: s.Elements.containsUnspentSiacoinElement(txn.SiacoinInputs[j].Share())
+//@   invariant loop#4 @sf forall j in 0..len(txn.SiafundInputs) :: s.Elements.containsUnspentSiafundElement(txn.SiafundInputs[j].Share())
+//@   invariant loop#4 @rev forall j in 0..$n :: s.Elements.containsUnresolvedFileContractElement(txn.RevisedFileContracts[j].Share())
+//@   invariant loop#5 @c 0 <= t && t < $n1 ==> suppMembers(s, bs.Transactions[t])
+//@   invariant loop#5 @sc forall j in 0..len(txn.SiacoinInputs) :: s.Elements.containsUnspentSiacoinElement(txn.SiacoinInputs[j].Share())
+//@   invariant loop#5 @sf forall j in 0..len(txn.SiafundInputs) :: s.Elements.containsUnspentSiafundElement(txn.SiafundInputs[j].Share())
+//@   invariant loop#5 @rev forall j in 0..len(txn.RevisedFileContracts) :: s.Elements.containsUnresolvedFileContractElement(txn.RevisedFileContracts[j].Share())
+//@   invariant loop#5 @sp forall j in 0..$n :: s.Elements.containsUnresolvedFileContractElement(txn.StorageProofs[j].FileContract.Share())
+//@   invariant loop#6 @c 0 <= t && t < len(bs.Transactions) ==> suppMembers(s, bs.Transactions[t])
+//@   invariant loop#6 @exp 0 <= k && k < $n ==> s.Elements.containsUnresolvedFileContractElement(bs.ExpiringFileContracts[k].Share())
+//@   ensures @A-supplement-members result == nil && 0 <= t && t < len(bs.Transactions) ==> suppMembers(s, bs.Transactions[t])
+//@   ensures @A-expiring-members result == nil && 0 <= k && k < len(bs.ExpiringFileContracts) ==> s.Elements.containsUnresolvedFileContractElement(bs.ExpiringFileContracts[k].Share())
+
+// ValidateBlock: every block-level check runs, and every transaction is validated against the
+// MidState its predecessors left behind before it is applied (the precondition of Apply*).
+//@ func ValidateBlock
+//@   prop C10 C01 C04 C08
+//@   requires s.Network != nil && s.Network.HardforkASIC.NonceFactor >= 1
+//@   requires cheight(s) >= s.Network.HardforkV2.FinalCutHeight ==> wval(s.Difficulty) != 0
+//@   requires @sizes forall i in 0..len(b.Transactions) :: len(b.Transactions[i].SiacoinInputs) < NB && len(b.Transactions[i].SiafundInputs) < NB && len(b.Transactions[i].SiafundOutputs) < NB
+//@   requires @supplement-env forall i in 0..len(bs.Transactions) :: tsEnv(bs.Transactions[i])
+//@   requires @v2-sizes b.V2 != nil ==> forall i in 0..len(deref(b.V2).Transactions) :: len(deref(b.V2).Transactions[i].SiacoinInputs) < NB && len(deref(b.V2).Transactions[i].SiafundInputs) < NB && len(deref(b.V2).Transactions[i].SiafundOutputs) < NB
+//@   requires @v2-decoded b.V2 != nil ==> forall i in 0..len(deref(b.V2).Transactions) :: forall j in 0..len(deref(b.V2).Transactions[i].FileContractResolutions) :: !isnil(deref(b.V2).Transactions[i].FileContractResolutions[j].Resolution)
+//@   requires @after-ephemeral-window b.V2 != nil ==> cheight(s) >= s.Network.HardforkV2.EphemeralOutputHeight
+//@   invariant loop#1 @env ms.base == s && msEnv(*ms)
+//@   invariant loop#2 @env ms.base == s && msEnv(*ms)
+//@   ensures @runs-every-check result == nil ==> ValidateOrphan(s, b) == nil && validateSupplement(s, b, bs) == nil && (b.V2 != nil ==> deref(b.V2).Commitment == s.Commitment(b.MinerPayouts[0].Address, b.Transactions, deref(b.V2).Transactions))
+
+// A block without its parent's supplement: weight limit, miner payouts, header, v2 height.
+//@ func ValidateOrphan
+//@   abstract
+//@   prop C10 C01 C13
+//@   requires s.Network != nil && s.Network.HardforkASIC.NonceFactor >= 1
+//@   requires cheight(s) >= s.Network.HardforkV2.FinalCutHeight ==> wval(s.Difficulty) != 0
+//@   ensures @runs-every-check result == nil ==> validateMinerPayouts(s, b) == nil && ValidateHeader(s, b.Header()) == nil && (b.V2 != nil ==> deref(b.V2).Height == (s.Index.Height + 1) % 2^64)
+
 //@ func ValidateV2Transaction
+//@   abstract
 //@   pure
 //@   prop C09
 //@   prop C10 C01 C08
@@ -908,6 +990,7 @@ package consensus
 //@   ensures @weight result == nil ==> ms.base.V2TransactionWeight(txn) != 0 && ms.base.V2TransactionWeight(txn) <= ms.base.MaxBlockWeight()
 
 //@ func ValidateTransaction
+//@   abstract
 //@   pure
 //@   prop C09
 //@   prop C10 C01 C08
